@@ -16,7 +16,7 @@ def handle (j : J) : Except String J := do
   | "key" =>
     let fs ← (← j.getArr "fields").mapM toJVal
     let o ← toJVal (j.getD "o")
-    pure (.obj [("k", .str (memberKey (fs.filter JVal.truthy) o))])
+    pure (.obj [("k", .str (memberKey fs o))])
   | "strip" =>
     pure (.obj [("v", ofJVal (stripLastApplied (← toJVal (j.getD "v"))))])
   | "verdict" =>
